@@ -83,10 +83,17 @@ type Contract struct {
 	NoFrame  bool              // do not generate frame obligations
 	Props    []string          // properties this contract serves
 	Witness  map[string]map[string]Expr // clause label -> bound variable -> witness expression
+	Skips    []SkipClause
 	File     string
 	Line     int
 	HasPanicsNever bool
 	Opaque   bool // body not verified but not "trusted" either (havoc-abstracted); used for A+B layer
+}
+
+// SkipClause: an obligation that is generated but explicitly not claimed (listed as an assumption).
+type SkipClause struct {
+	Pattern string
+	Reason  string
 }
 
 type PureFunc struct {
@@ -568,7 +575,7 @@ var clauseKeywords = map[string]bool{
 	"modifies": true, "loop": true, "panics": true, "trusted": true, "lemma": true,
 	"axiom": true, "inline": true, "returns": true, "props": true, "noframe": true,
 	"K": true, "F": true, "guarded": true, "hyp": true, "concl": true, "vars": true,
-	"opaque": true, "uninterp": true, "witness": true,
+	"opaque": true, "uninterp": true, "witness": true, "skip": true,
 }
 
 type rawLine struct {
@@ -708,6 +715,15 @@ func readSpecFile(path string) (*SpecFile, error) {
 			case "modifies":
 				cur.Modifies = append(cur.Modifies, c)
 			}
+		case "skip":
+			if cur == nil {
+				return nil, fail(rl, "skip outside func")
+			}
+			f := strings.SplitN(rest, " because ", 2)
+			if len(f) != 2 {
+				return nil, fail(rl, "skip <obligation-substring> because <reason>")
+			}
+			cur.Skips = append(cur.Skips, SkipClause{strings.TrimSpace(f[0]), strings.TrimSpace(f[1])})
 		case "witness":
 			if cur == nil {
 				return nil, fail(rl, "witness outside func")
